@@ -83,6 +83,56 @@ theorem paintAll_blocks (tag : Nat) (ms : Models R) (ctx : Ctx R) (q : Query R) 
           obtain ⟨bs', g2⟩ := r2
           simp [embedBlocks, QM.pure_apply, List.append_assoc]
 
+theorem Fits.flatten_length {ps : List Req} {bs : List (List R)} (h : Fits ps bs) : bs.flatten.length = outputSize ps := by
+  induction ps generalizing bs with
+  | nil => cases bs <;> simp [Fits] at h; simp [outputSize]
+  | cons p ps ih =>
+    cases bs with
+    | nil => simp [Fits] at h
+    | cons b bs =>
+      obtain ⟨h1, h2⟩ := h
+      have := ih h2
+      simp only [List.flatten_cons, List.length_append, outputSize, List.map_cons, List.sum_cons] at this ⊢
+      rw [this, Req.size_of_size? h1]
+
+/-- the `i`-th block of a flattened block list sits at the `i`-th prefix sum -/
+theorem Fits.readBlock_nth {ps : List Req} {bs : List (List R)} (h : Fits ps bs) (s : Nat) (pre : List R) (hs : pre.length = s)
+    (i : Nat) (p : Req) (b : List R) (hp : ps[i]? = some p) (hb : bs[i]? = some b) :
+    ∃ e, (entriesFrom s ps)[i]? = some e ∧ readBlock e p.size (pre ++ bs.flatten) = b := by
+  induction ps generalizing bs s pre i with
+  | nil => simp at hp
+  | cons p0 ps ih =>
+    cases bs with
+    | nil => simp at hb
+    | cons b0 bs =>
+      obtain ⟨h1, h2⟩ := h
+      cases i with
+      | zero =>
+        simp only [List.getElem?_cons_zero, Option.some.injEq] at hp hb
+        subst hp; subst hb
+        refine ⟨s, by simp [entriesFrom], ?_⟩
+        subst hs
+        rw [List.flatten_cons, ← List.append_assoc, readBlock_append pre b0 bs.flatten _ (Req.size_of_size? h1).symm]
+      | succ i =>
+        simp only [List.getElem?_cons_succ] at hp hb
+        have hlen : (pre ++ b0).length = s + p0.size := by
+          rw [List.length_append, hs, Req.size_of_size? h1]
+        obtain ⟨e, he, hr⟩ := ih h2 (s + p0.size) (pre ++ b0) hlen i hp hb
+        refine ⟨e, by simpa [entriesFrom] using he, ?_⟩
+        rw [List.flatten_cons, ← List.append_assoc]; exact hr
+
+theorem Fits.nth_exists {ps : List Req} {bs : List (List R)} (h : Fits ps bs) (i : Nat) (p : Req) (hp : ps[i]? = some p) :
+    ∃ b, bs[i]? = some b := by
+  induction ps generalizing bs i with
+  | nil => simp at hp
+  | cons p0 ps ih =>
+    cases bs with
+    | nil => simp [Fits] at h
+    | cons c cs =>
+      cases i with
+      | zero => exact ⟨c, by simp⟩
+      | succ i => simpa using ih h.2 i (by simpa using hp)
+
 /-! ### features and the world, block-wise -/
 
 def Feature.tag : Feature R → Nat
